@@ -28,7 +28,7 @@ ROWS = [
   'N=6/5/5, sequences 3–4, w ≤ 3, k ≤ 512, 100 kB, typed docs k ≤ 2, delimiter strings over 20 characters, VCS tier to 7', 'lossy apt `Release` has no text entry point (reached through C16/C20); typed getters are outside the quantifier (§4.3); a process death is located and reported as a verdict (§2.6)'),
  ('C03', 'E2', '9 skeletons, k=3 on ≤ 2 fields else 2 (7 comment shapes, 13 first lines, 10 continuation lines, 5 colon spacings …); reject clause on k ≤ 1 × every line × 10 corruptions (4 junk lines inserted, the same 4 as unterminated last line, colon deleted, indentation removed); 184 field-name-character cases; 36 long-token documents (255 … 65537 characters) with their reading',
   'k=4 / 3', '—'),
- ('C04', 'E3', '28 fixed initial states × {fresh, early handles} to depth 3 (+2 uncached); every generated layout with ≤ 1 deviation × both final-newline settings on a 2×2 skeleton to depth 1; 37 ops per paragraph; accessors, `rename` result and pre-operation handles checked in every state',
+ ('C04', 'E3', '28 fixed initial states × {fresh, early handles} to depth 3 (+2 uncached); every generated layout with ≤ 1 deviation × both final-newline settings on a 2×2 skeleton to depth 1; ops over 4 keys (one a case twin) × 4 values (one of three lines) per paragraph; accessors, `rename` result and pre-operation handles checked in every state',
   'depth 4 (+2); layouts: depth 2, + ≤ 2 deviations on 1×2, one more key', '—'),
  ('C05', 'E3', '27 fixed initial documents to depth 3 (+2 uncached); generated layouts (2×1, 3×1, ≤ 1 deviation × final newline) to depth 1; add / insert(0..=len+1) / remove(0..=len), bare and "then set", + 5 field edits per paragraph; pre-operation handles followed across paragraph operations',
   'depth 5 (+3); layouts depth 2, + 2×2 and ≤ 2 deviations', '—'),
@@ -36,20 +36,20 @@ ROWS = [
   'same as C01/C03 thorough', 'a lossy crash on a string that is not a well-formed document is left to C02'),
  ('C07', 'E2 × full product', '5 skeletons (k=2 on 1×1 else 1, × final newline) × 864 settings (−240 formatter/comparator combinations); `wrap_and_sort(_, None)`; 5 documents without paragraphs, 3 with comment lines inside values, 6 live documents with a field-less paragraph and 8 documents whose sort keys tie × 864; an indented comment in front of every line of k ≤ 1 layouts (2 skeletons) under line-preserving formatters; 8 control files × 24 settings and 150 orderings of 2–3 paragraphs out of 6 kinds (ties included) × 2 settings × {Control, Source/Binary} compared with the deb822-level reformatting under the documented formatter/order',
   'k=3 / 2 / 1', 'comparators depend on names/values only; CR-terminated documents are not in the quantifier (§4.3)'),
- ('C08', 'E2 + E3', '3 names × 18 values: 1 paragraph × 1–3 fields, 2–3 paragraphs × 1 field, the empty document; every printable ASCII name character × 3 positions × 4 values; edits depth 4 from 6 paragraphs', '+ 2×2 paragraphs, edits depth 6', 'continuation lines starting with `#` are outside the domain'),
+ ('C08', 'E2 + E3', '3 names × 22 values: 1 paragraph × 1–3 fields, 2–3 paragraphs × 1 field, the empty document; every printable ASCII name character × 3 positions × 4 values; edits depth 4 from 6 paragraphs (5 names × 4 values in the first two steps, 3 × 2 deeper)', '+ 2×2 paragraphs, edits depth 6', 'continuation lines starting with `#` are outside the domain'),
  ('C09', 'E1', '21 classes to N=5; 20 tokens to 4; 72 fields with one token of 255 … 65537 characters; every ASCII and 14 non-ASCII characters × 22 prefixes × 8 suffixes; single-entry / single-relation readers compared with the field reader; every ordered pair of the three field readers back to back vs in isolation (strings to 4 symbols and every string with a `$`)', 'N=6; 6 tokens', '—'),
  ('C10', 'E2', '9 skeletons × {substvars off, on}: k=2 on ≤ 2 relations else 1 over 13 relation slots (3 names, 6 operators, 8 versions (epoch × upstream shape × revision), 6 arch lists, 8 profile lists, blanks inside brackets, line breaks between items …); full product of the relation parts (7 776) × every single whitespace deviation; 132 identifier-character cases',
   'k=4 / 3 / 2', 'lossy clause skipped for a line break inside a list (§7)'),
  ('C13', 'E2', "C10's fields; every field with ≤ 1 deviation also under each of the 16 Policy relationship field names through `Control` and `Source/Binary::wrap_and_sort` (2 settings); live reading of the result", 'k=4 / 3 / 2', 'ties between equal first names are not constrained (§4.3)'),
  ('C11', 'E3', '13 fixed + 5 constructor-built initial fields to depth 2 (+1 uncached); 8 layout templates × every single whitespace deviation to depth 1; ≈ 300 ops at a 2×2 field (9 relation operands, 6 entry operands incl. one that is == to existing content, 11 relation edits, pairs through one relation / one entry handle, `Entry::remove`); separators, returned values, `len`/`is_empty`',
   'depth 3 (+2); templates: double deviations depth 1, single deviations depth 2', 'field size bounded at 3 entries × 3 alternatives'),
- ('C12', 'E2 product', 'complete table 6 ops × 9 × 10 (pool with zero and non-zero epochs); nesting ≤ 3 entries × 1–3 alternatives; same-package alternatives; fields over three shared package names × 8 installed sets; lookup exactness probes; each on lossless trees of 5 provenances and lossy values of 2, and parsed from text with an empty entry in front / between all entries / behind', 'pool of 12 versions, 4 entries', '—'),
+ ('C12', 'E2 product', 'complete table 6 ops × 11 × 12, also on decorated relations and next to substitution variables (pool with zero and non-zero epochs); nesting ≤ 3 entries × 1–3 alternatives; same-package alternatives; fields over three shared package names × 8 installed sets; lookup exactness probes; each on lossless trees of 5 provenances and lossy values of 2, and parsed from text with an empty entry in front / between all entries / behind', 'pool of 16 versions, 4 entries', '—'),
  ('C14', 'E2 product', '2 × 2 × 6 × 7 × 76 = 12 768 relations (up to 3 architectures and 4 profile groups) (each also through `RelationBuilder`, converted tree read live); fields ≤ 2 × ≤ 2 over 12, the empty value, 3 alternatives', '+ 3 entries × ≤ 2 over a 6-element subset', '—'),
  ('C15', 'E2 table', '146 pairs × values × 8 priors (14 for fields with an alias name; + sibling-accessor clause); all ordered setter pairs per view through re-read text AND on one live view (also + clear / + re-set); 77 reading rows incl. `add_source` / `add_binary`', 'same', 'table written by a sub-agent from the accessor inventory, triaged (§4.3)'),
  ('C16', 'E2', '32 structs (16 shapes + 3 with split attributes + 1 + 12 shipped), k=2 over all table values (incl. the empty string), 7 update priors (incl. repeated names, a case-variant foreign name, a built paragraph), back-ends compared after update, live read-back, `to_paragraph()` printed and re-read; 4 in-memory values per free-text field × 2 × 2 back-ends', 'k=3', '—'),
  ('C17', 'E2', 'patterns ≤ 3 tokens × paths ≤ 2 chars over 12/10 symbols, second alphabet (12 symbols) to 2 × 2; 6 481 copyright files × 6 licence sets × 6 paths, 7 layouts (header with licence, licence paragraphs before / between Files, no final newline, comment lines) on ≤ 1 Files paragraph; relaxed and file readers', 'patterns ≤ 4 / paths ≤ 3; second alphabet 3 × 3; layouts on ≤ 2 Files paragraphs; third Files paragraph from 8 configurations', 'regex compilation per `matches()` call dominates the time'),
  ('C18', 'E2 + E1 reject', '25 families + 12 rows for keywords inside composite values, ≈ 2 170 values, canonical texts, ≈ 11 k reject strings per keyword row', 'reject strings to length 5', 'two `extra` keys of a package-list entry print in hash order (not compared)'),
- ('C19', 'E4', '7 × 2 380 × 43 messages (20 payload templates incl. 2-, 3- and 4-byte characters at byte offsets 0–2 and NUL, 6 signature-line templates) × (all line cuts + 4 appends + intact + unsigned + 4 armour-like first lines), byte cuts for the small sub-family; a 255 … 65537-character payload line / signature line / armour header with every line cut', 'payload ≤ 4 lines', '—'),
+ ('C19', 'E4', '7 × 6 880 × 43 messages (20 payload templates incl. 2-, 3- and 4-byte characters at byte offsets 0–2 and NUL, 6 signature-line templates) × (all line cuts + 4 appends + intact + unsigned + 4 armour-like first lines), byte cuts for the small sub-family; a 255 … 65537-character payload line / signature line / armour header with every line cut', 'payload ≤ 4 lines', '—'),
  ('C20', 'E2', '9 kinds, 25 shapes, k=1 over all table values, 8 layouts', 'k=2', '—'),
 ]
 
